@@ -64,7 +64,12 @@ type Buffer struct {
 type Reader struct {
 	ref []byte
 	buf *bytes.Reader
+
+	skipDepth int // current nesting depth while skipping unknown fields
 }
+
+// maxSkipDepth bounds the nesting of fields that are skipped recursively.
+const maxSkipDepth = 1024
 
 //go:nosplit
 func bWriteU8(w *bytes.Buffer, data uint8) error {
@@ -122,9 +127,11 @@ func bReadU16(r *bytes.Reader, data *uint16) error {
 		bs []byte
 	)
 	bs = b[:]
-	_, err := r.Read(bs)
+	if _, err := io.ReadFull(r, bs); err != nil {
+		return err
+	}
 	*data = binary.BigEndian.Uint16(bs)
-	return err
+	return nil
 }
 
 //go:nosplit
@@ -134,9 +141,11 @@ func bReadU32(r *bytes.Reader, data *uint32) error {
 		bs []byte
 	)
 	bs = b[:]
-	_, err := r.Read(bs)
+	if _, err := io.ReadFull(r, bs); err != nil {
+		return err
+	}
 	*data = binary.BigEndian.Uint32(bs)
-	return err
+	return nil
 }
 
 //go:nosplit
@@ -146,9 +155,11 @@ func bReadU64(r *bytes.Reader, data *uint64) error {
 		bs []byte
 	)
 	bs = b[:]
-	_, err := r.Read(bs)
+	if _, err := io.ReadFull(r, bs); err != nil {
+		return err
+	}
 	*data = binary.BigEndian.Uint64(bs)
-	return err
+	return nil
 }
 
 //go:nosplit
@@ -355,6 +366,7 @@ func (b *Buffer) Grow(size int) {
 func (b *Reader) Reset(data []byte) {
 	b.buf.Reset(data)
 	b.ref = data
+	b.skipDepth = 0
 }
 
 //go:nosplit
@@ -407,6 +419,15 @@ func (b *Reader) Skip(n int) {
 	_, _ = b.buf.Seek(int64(n), io.SeekCurrent)
 }
 
+// skipN skips the next n bytes and fails if fewer than n bytes remain.
+func (b *Reader) skipN(n int) error {
+	if n < 0 || n > b.buf.Len() {
+		return io.ErrUnexpectedEOF
+	}
+	b.Skip(n)
+	return nil
+}
+
 func (b *Reader) skipFieldMap() error {
 	var length int32
 	err := b.ReadInt32(&length, 0, true)
@@ -414,12 +435,14 @@ func (b *Reader) skipFieldMap() error {
 		return err
 	}
 
-	for i := int32(0); i < length*2; i++ {
+	for i := int64(0); i < int64(length)*2; i++ {
 		tyCur, _, err := b.readHead()
 		if err != nil {
 			return err
 		}
-		_ = b.skipField(tyCur)
+		if err = b.skipField(tyCur); err != nil {
+			return err
+		}
 	}
 	return nil
 }
@@ -434,17 +457,19 @@ func (b *Reader) skipFieldList() error {
 		if err != nil {
 			return err
 		}
-		_ = b.skipField(tyCur)
+		if err = b.skipField(tyCur); err != nil {
+			return err
+		}
 	}
 	return nil
 }
 func (b *Reader) skipFieldSimpleList() error {
 	tyCur, _, err := b.readHead()
-	if tyCur != BYTE {
-		return fmt.Errorf("simple list need byte head. but get %d", tyCur)
-	}
 	if err != nil {
 		return err
+	}
+	if tyCur != BYTE {
+		return fmt.Errorf("simple list need byte head. but get %d", tyCur)
 	}
 	var length int32
 	err = b.ReadInt32(&length, 0, true)
@@ -452,38 +477,49 @@ func (b *Reader) skipFieldSimpleList() error {
 		return err
 	}
 
-	b.Skip(int(length))
-	return nil
+	return b.skipN(int(length))
 }
 
 func (b *Reader) skipField(ty byte) error {
 	switch ty {
+	case MAP, LIST, StructBegin:
+		// nested fields are skipped recursively; bound the depth so that hostile input
+		// cannot exhaust the stack
+		b.skipDepth++
+		defer func() { b.skipDepth-- }()
+		if b.skipDepth > maxSkipDepth {
+			return fmt.Errorf("skip field: nesting deeper than %d", maxSkipDepth)
+		}
+	}
+	switch ty {
 	case BYTE:
-		b.Skip(1)
+		return b.skipN(1)
 	case SHORT:
-		b.Skip(2)
+		return b.skipN(2)
 	case INT:
-		b.Skip(4)
+		return b.skipN(4)
 	case LONG:
-		b.Skip(8)
+		return b.skipN(8)
 	case FLOAT:
-		b.Skip(4)
+		return b.skipN(4)
 	case DOUBLE:
-		b.Skip(8)
+		return b.skipN(8)
 	case STRING1:
 		data, err := b.buf.ReadByte()
 		if err != nil {
 			return err
 		}
-		l := int(data)
-		b.Skip(l)
+		return b.skipN(int(data))
 	case STRING4:
 		var l uint32
 		err := bReadU32(b.buf, &l)
 		if err != nil {
 			return err
 		}
-		b.Skip(int(l))
+		if uint64(l) > uint64(b.buf.Len()) {
+			return io.ErrUnexpectedEOF
+		}
+		return b.skipN(int(l))
 	case MAP:
 		err := b.skipFieldMap()
 		if err != nil {
@@ -578,9 +614,12 @@ func (b *Reader) ReadSliceInt8(data *[]int8, len int32, require bool) error {
 	if len <= 0 {
 		return nil
 	}
+	if int(len) > b.buf.Len() {
+		return fmt.Errorf("read []int8 error: length %d exceeds the %d remaining bytes", len, b.buf.Len())
+	}
 
 	*data = make([]int8, len)
-	_, err := b.buf.Read(*(*[]uint8)(unsafe.Pointer(data)))
+	_, err := io.ReadFull(b.buf, *(*[]uint8)(unsafe.Pointer(data)))
 	if err != nil {
 		err = fmt.Errorf("read []int8 error:%v", err)
 	}
@@ -592,9 +631,12 @@ func (b *Reader) ReadSliceUint8(data *[]uint8, len int32, require bool) error {
 	if len <= 0 {
 		return nil
 	}
+	if int(len) > b.buf.Len() {
+		return fmt.Errorf("read []uint8 error: length %d exceeds the %d remaining bytes", len, b.buf.Len())
+	}
 
 	*data = make([]uint8, len)
-	_, err := b.buf.Read(*data)
+	_, err := io.ReadFull(b.buf, *data)
 	if err != nil {
 		err = fmt.Errorf("read []uint8 error:%v", err)
 	}
@@ -603,8 +645,14 @@ func (b *Reader) ReadSliceUint8(data *[]uint8, len int32, require bool) error {
 
 // ReadBytes reads []byte for the given length and the require or optional sign.
 func (b *Reader) ReadBytes(data *[]byte, len int32, require bool) error {
+	if len < 0 || int(len) > b.buf.Len() {
+		return fmt.Errorf("read []byte error: length %d exceeds the %d remaining bytes", len, b.buf.Len())
+	}
 	*data = make([]byte, len)
-	_, err := b.buf.Read(*data)
+	if len == 0 {
+		return nil
+	}
+	_, err := io.ReadFull(b.buf, *data)
 	return err
 }
 
@@ -849,6 +897,9 @@ func (b *Reader) ReadString(data *string, tag byte, require bool) error {
 		if err != nil {
 			return fmt.Errorf("read string4 tag:%d error:%v", tag, err)
 		}
+		if uint64(length) > uint64(b.buf.Len()) {
+			return fmt.Errorf("read string4 tag:%d error: length %d exceeds the %d remaining bytes", tag, length, b.buf.Len())
+		}
 		buff := b.Next(int(length))
 		*data = string(buff)
 	} else if ty == STRING1 {
@@ -856,6 +907,9 @@ func (b *Reader) ReadString(data *string, tag byte, require bool) error {
 		err = bReadU8(b.buf, &length)
 		if err != nil {
 			return fmt.Errorf("read string1 tag:%d error:%v", tag, err)
+		}
+		if int(length) > b.buf.Len() {
+			return fmt.Errorf("read string1 tag:%d error: length %d exceeds the %d remaining bytes", tag, length, b.buf.Len())
 		}
 		buff := b.Next(int(length))
 		*data = string(buff)
